@@ -1,7 +1,13 @@
-"""Crash-isolated loader worker.  Reads 'kind path' lines on stdin; for each, tries to load the file with the
-loader a user would reach, prints one line: 'ok' | 'exc <Class>'  followed, after a failed load, by a
-sentinel check (the process must stay fully usable).  An address-space limit is set so that a runaway
-allocation is an observable failure (MemoryError / abort) and not a swap storm."""
+"""Crash-isolated loader worker.  Reads 'kind<TAB>path[<TAB>extra]' lines on stdin; for each, tries to load the
+file with the loader a user would reach, prints one JSON line
+    {"o": 'ok…' | 'exc <Class>' [+ sentinel suffix], "facts": {...}, "enc": {...}}
+`o` is the outcome of the generic route (as before).  For the kinds whose hand-written reader has a Lean model
+(manifest, picklist, sbtjson, lca, and the loader chain for every kind that goes through load_file_as_index)
+`facts` holds what the real reader did when called directly, and `enc` the op line the model is to be run on
+(built by encode.py from the answers of the trusted decoders, in this same interpreter).
+After a failed load a sentinel check follows (the process must stay fully usable).  An address-space limit is
+set so that a runaway allocation is an observable failure (MemoryError / abort) and not a swap storm."""
+import json
 import os
 import resource
 import sys
@@ -9,9 +15,13 @@ import sys
 lim = int(os.environ.get("C20_AS_LIMIT_GB", "6")) * 2 ** 30
 resource.setrlimit(resource.RLIMIT_AS, (lim, lim))
 
+sys.path.insert(0, os.path.dirname(os.path.abspath(__file__)))
+import encode  # noqa: E402
+
 import sourmash  # noqa: E402
 from sourmash import MinHash, SourmashSignature  # noqa: E402
 from sourmash import signature as sigmod  # noqa: E402
+from sourmash import save_load  # noqa: E402
 
 SENT_SEQ = "ACGTTGCATGCATGCAAATTTGGGCCCATATATGCGCGCTAGCTAGCTAGGATCGATCG"
 
@@ -56,17 +66,222 @@ def exercise(ss):
     sigmod.save_signatures_to_json([ss])
 
 
-def load(kind, path):
+# ------------------------------------------------------------------ observation of the loader chain
+
+class ChainRecorder:
+    """wraps every registered loader function (and the functions whose exceptions some of them convert) while
+    one top-level load_file_as_index call runs; records, per loader tried at depth 0, the outcome of the wrapped
+    inner function ('inner') and of the loader function itself ('outer')"""
+    INNER = {"_load_sbt": ("save_load", "load_sbt_index"),
+             "_load_zipfile": ("zipidx", "load"),
+             "_load_standalone_manifest": ("smi", "load")}
+
+    def __init__(self):
+        self.calls = []
+        self.depth = 0
+
+    @staticmethod
+    def _out(fn, *a, **kw):
+        try:
+            r = fn(*a, **kw)
+        except BaseException as e:  # noqa: BLE001
+            return "exc:" + encode.mro_names(e), e, None
+        return ("none" if r is None else "idx"), None, r
+
+    def __enter__(self):
+        from sourmash.index import StandaloneManifestIndex, ZipFileLinearIndex
+        rec = self
+        self.saved_loaders = list(save_load._loader_functions)
+        self.saved_sbt = save_load.load_sbt_index
+        self.saved_zip = ZipFileLinearIndex.__dict__["load"]
+        self.saved_smi = StandaloneManifestIndex.__dict__["load"]
+        self.inner_seen = {}
+
+        def wrap_inner(tag, fn):
+            def w(*a, **kw):
+                o, e, r = rec._out(fn, *a, **kw)
+                if rec.depth == 1:
+                    rec.inner_seen[tag] = o
+                if e is not None:
+                    raise e
+                return r
+            return w
+
+        save_load.load_sbt_index = wrap_inner("_load_sbt", self.saved_sbt)
+        zl = self.saved_zip.__func__
+        ZipFileLinearIndex.load = classmethod(lambda cls, *a, **kw: wrap_inner("_load_zipfile", lambda *b, **k: zl(cls, *b, **k))(*a, **kw))
+        sl = self.saved_smi.__func__
+        StandaloneManifestIndex.load = classmethod(lambda cls, *a, **kw: wrap_inner("_load_standalone_manifest", lambda *b, **k: sl(cls, *b, **k))(*a, **kw))
+
+        def wrap_loader(fn):
+            def w(*a, **kw):
+                rec.depth += 1
+                try:
+                    if rec.depth == 1:
+                        rec.inner_seen.pop(fn.__name__, None)
+                    o, e, r = rec._out(fn, *a, **kw)
+                    if rec.depth == 1:
+                        rec.calls.append((fn.__name__, rec.inner_seen.get(fn.__name__, o), o))
+                finally:
+                    rec.depth -= 1
+                if e is not None:
+                    raise e
+                return r
+            w.__name__ = fn.__name__
+            return w
+
+        save_load._loader_functions[:] = [(p, d, wrap_loader(f)) for p, d, f in self.saved_loaders]
+        return self
+
+    def __exit__(self, *exc):
+        from sourmash.index import StandaloneManifestIndex, ZipFileLinearIndex
+        save_load._loader_functions[:] = self.saved_loaders
+        save_load.load_sbt_index = self.saved_sbt
+        ZipFileLinearIndex.load = self.saved_zip
+        StandaloneManifestIndex.load = self.saved_smi
+        return False
+
+
+def observe_chain(path, info, fn=None):
+    """run load_file_as_index(path) (or `fn(path)`, which reaches the same chain) with the recorder on;
+    returns the result or re-raises"""
+    with ChainRecorder() as rec:
+        o, e, idx = rec._out(fn or sourmash.load_file_as_index, path)
+    info["facts"]["chain"] = {"calls": [(f, outer) for f, _, outer in rec.calls],
+                              "final": o if e is None else "exc:" + type(e).__name__}
+    try:
+        info["enc"]["chain"] = encode.enc_chain([(f, inner) for f, inner, _ in rec.calls])
+    except Exception:  # noqa: BLE001
+        pass
+    if e is not None:
+        raise e
+    return idx
+
+
+# ------------------------------------------------------------------ direct calls of the modelled readers
+
+def _codes(*fns):
+    """code objects of the given functions and of everything nested in them (generator expressions, lambdas)"""
+    out = set()
+
+    def add(c):
+        out.add(c)
+        for k in c.co_consts:
+            if hasattr(k, "co_code"):
+                add(k)
+    for f in fns:
+        f = getattr(f, "__func__", f)
+        add(f.__code__)
+    return out
+
+
+def counted(codes, fn):
+    """run fn() counting the source lines executed inside the given code objects (the reader's own frames):
+    the measured counterpart of the models' `work`"""
+    n = [0]
+
+    def local(frame, event, arg):
+        if event == "line":
+            n[0] += 1
+        return local
+
+    def glob(frame, event, arg):
+        return local if frame.f_code in codes else None
+    sys.settrace(glob)
+    try:
+        try:
+            r = fn()
+        finally:
+            sys.settrace(None)
+    except (Exception, SystemExit) as ex:  # noqa: BLE001
+        return "exc " + type(ex).__name__, n[0]
+    return r, n[0]
+
+
+def CollectionManifest_load():
+    from sourmash.manifest import CollectionManifest
+    return CollectionManifest.load_from_csv
+
+
+def direct(kind, path, extra, info):
+    def guard(tag, enc_fn, run_fn, codes):
+        try:
+            e = enc_fn()
+            if e is not None:
+                info["enc"][tag] = e
+        except Exception as ex:  # noqa: BLE001
+            info["enc_err"] = type(ex).__name__
+        r, lines = counted(codes, run_fn)
+        info["facts"][tag] = r
+        info["facts"][tag + "_lines"] = lines
+
+    if kind == "manifest":
+        def run():
+            from sourmash.manifest import CollectionManifest
+            with open(path, "rt", newline="") as fp:
+                m = CollectionManifest.load_from_csv(fp)
+            rows = ";".join(f"{r['num']},{r['scaled']},{r['ksize']},{r['n_hashes']},{1 if r['with_abundance'] else 0}" for r in m.rows)
+            return f"ok {len(m)} {rows}"
+        from sourmash.manifest import CollectionManifest as CM
+        guard("mf", lambda: encode.enc_manifest(path), run, _codes(CM.load_from_csv, CM.__init__, CM._add_rows))
+    elif kind in ("picklist", "plarg"):
+        argstr = (extra or "{}:md5:md5").replace("{}", path)
+
+        def run():
+            from sourmash.picklist import SignaturePicklist
+            pl = SignaturePicklist.from_picklist_args(argstr)
+            n_empty, dups = pl.load()
+            return f"ok {n_empty} {len(dups)} {len(pl.pickset)}"
+
+        def enc():
+            # the pickfile the argument string names (when it parses that far)
+            parts = argstr.split(":")
+            if len(parts) == 4:
+                parts = parts[:3]
+            pf = parts[0] if len(parts) == 3 else path
+            return encode.enc_picklist(pf, argstr)
+        from sourmash.picklist import SignaturePicklist as SP
+        guard("pl", enc, run, _codes(SP.from_picklist_args, SP.__init__, SP.load, SP.init, SP.add, SP._get_value_for_csv_row))
+    elif kind == "lca":
+        def run():
+            from sourmash.lca.lca_db import LCA_Database
+            db = LCA_Database.load(path)
+
+            def oi(x):
+                return str(x) if isinstance(x, int) else "f"
+            return (f"ok {db.ksize} {db.scaled} {len(db._lid_to_lineage)} {len(db._hashval_to_idx)} "
+                    f"{len(db._idx_to_lid)} {oi(db._next_index)} {oi(db._next_lid)}")
+        from sourmash.lca.lca_db import LCA_Database as LD
+        guard("lca", lambda: encode.enc_lca(path), run, _codes(LD.load, LD.__init__))
+    elif kind == "sbtjson":
+        def run():
+            from sourmash.sbt import SBT
+            from sourmash.sbtmh import SigLeaf
+            t = SBT.load(path, leaf_loader=SigLeaf.load, print_version_warning=False)
+            d = t.d
+            ds = str(d) if isinstance(d, int) and not isinstance(d, bool) else "f"
+            cc = "-"
+            if isinstance(d, int) and not isinstance(d, bool) and d <= 10 ** 6:
+                cc = str(len(t.children(0)))
+            mf = "-" if t.manifest is None else str(len(t.manifest))
+            return f"ok d={ds} n={len(t._nodes)} l={len(t._leaves)} m={len(t._missing_nodes)} mf={mf} cc={cc}"
+        from sourmash.sbt import SBT as S, Node, Leaf
+        guard("sbt", lambda: encode.enc_sbt(path), run,
+              _codes(S.load, S._load_v1, S._load_v2, S._load_v3, S._load_v4, S._load_v5, S._load_v6, S.__init__, Node.load, Leaf.load,
+                     Node.__init__, Leaf.__init__, CollectionManifest_load()))
+
+
+def load(kind, path, extra, info):
     if kind in ("sig", "siggz"):
         n = 0
-        for ss in sourmash.load_file_as_signatures(path):
+        for ss in observe_chain(path, info, lambda p: list(sourmash.load_file_as_signatures(p))):
             n += len(ss.minhash)
             exercise(ss)
         data = open(path, "rb").read()
         for ss in sigmod.load_signatures_from_json(data):
             exercise(ss)
-    elif kind in ("zip", "sqldb", "sbtzip", "sbtjson", "lca"):
-        idx = sourmash.load_file_as_index(path)
+    elif kind in ("zip", "sqldb", "sbtzip", "sbtjson", "lca", "pathlist"):
+        idx = observe_chain(path, info)
         sigs = list(idx.signatures())
         for ss in sigs[:3]:
             exercise(ss)
@@ -88,9 +303,9 @@ def load(kind, path):
         m = CollectionManifest.load_from_filename(path)
         len(m)
         [r["md5"] for r in m.rows]
-    elif kind == "picklist":
+    elif kind in ("picklist", "plarg"):
         from sourmash.picklist import SignaturePicklist
-        pl = SignaturePicklist.from_picklist_args(f"{path}:md5:md5")
+        pl = SignaturePicklist.from_picklist_args((extra or "{}:md5:md5").replace("{}", path))
         pl.load()
     elif kind == "nodegraph":
         from sourmash.nodegraph import Nodegraph
@@ -110,9 +325,13 @@ def load(kind, path):
 
 def main():
     for line in sys.stdin:
-        kind, _, path = line.rstrip("\n").partition(" ")
+        parts = line.rstrip("\n").split("\t")
+        kind, path = parts[0], parts[1]
+        extra = parts[2] if len(parts) > 2 else None
+        info = {"facts": {}, "enc": {}}
         try:
-            res = load(kind, path)
+            direct(kind, path, extra, info)
+            res = load(kind, path, extra, info)
         except (Exception, SystemExit) as e:  # noqa: BLE001   SystemExit: some loaders call sys.exit on error
             res = "exc " + type(e).__name__
         if res != "ok":
@@ -122,7 +341,8 @@ def main():
                     res += " SENTINEL-CHANGED"
             except BaseException as e:  # noqa: BLE001
                 res += " SENTINEL-FAILED:" + type(e).__name__
-        sys.stdout.write(res + "\n")
+        info["o"] = res
+        sys.stdout.write(json.dumps(info) + "\n")
         sys.stdout.flush()
 
 
